@@ -154,6 +154,14 @@ def modeDir : Nat := 0o755
 
 /-! ## `compareFile` -/
 
+/-- `a.take n ≠ b.take n`, computed without building the two prefixes (`bytes.Equal(b[:n], data[:n])`
+negated; see `prefixDiffers_eq`). -/
+def prefixDiffers : Nat → Bytes → Bytes → Bool
+  | 0, _, _ => false
+  | _ + 1, [], [] => false
+  | n + 1, x :: a, y :: b => x != y || prefixDiffers n a b
+  | _ + 1, _, _ => true
+
 /-- One run of the loop of `compareFile` with a buffer of `cap` bytes: `file` = bytes not read
 yet, `data` = bytes not matched yet. Result: the sizes of the `read` calls issued (buffer, returned)
 and the verdict (`some true` = nil, `some false` = "file contents do not match", `none` = still
@@ -170,7 +178,7 @@ def compareLoop (cap : Nat) : Nat → Bytes → Bytes → List (Nat × Nat) × O
       ([(cap, 0)], some data.isEmpty)
     else
       let n := Nat.min cap file.length
-      if n > data.length || file.take n != data.take n then ([(cap, n)], some false)
+      if n > data.length || prefixDiffers n file data then ([(cap, n)], some false)
       else
         let r := compareLoop cap fuel (file.drop n) (data.drop n)
         ((cap, n) :: r.1, r.2)
